@@ -122,12 +122,17 @@ Verdict run_case(Choices& c, CaseLog& log)
     {
         bool enabled = false;
         int at_step = 0;  // number of steps already taken
+        int ulps = 0;  // offset of the injected value from the exact tie
         bool done = false;
         bool linear = false;
+        int remaining = 1;  // consecutive steps of the track to inject on
+        bool negative_remainder = false;
+        bool constructive = false;  // search the ulp offset that leaves a
+                                    // negative remainder after the step
     };
     auto tie = std::make_shared<Tie>();
     auto tie_hook = [tie](CoreParams const& cp, CoreState<MemSpace::host>& st) {
-        if (!tie->enabled || tie->done)
+        if (!tie->enabled || tie->remaining <= 0)
             return;
         for (auto i : range(TrackSlotId{st.size()}))
         {
@@ -135,7 +140,7 @@ Verdict run_case(Choices& c, CaseLog& log)
             auto sim = t.make_sim_view();
             if (sim.status() != TrackStatus::alive || sim.track_id().get() != 0
                 || sim.event_id().get() != 0
-                || int(sim.num_steps()) != tie->at_step)
+                || int(sim.num_steps()) < tie->at_step)
                 continue;
             auto particle = t.make_particle_view();
             bool neutral = particle.charge() == zero_quantity();
@@ -150,7 +155,26 @@ Verdict run_case(Choices& c, CaseLog& log)
             if (!pr.boundary || !(pr.distance > 0) || !std::isfinite(pr.distance))
                 return;
             auto phys = t.make_physics_view();
-            double mfp = pr.distance * xs;
+            // the exact tie and its floating-point neighbours: with -1/-2
+            // ulp the limit may still round up to the boundary distance, and
+            // the remaining mfp after the (boundary-limited) step is then a
+            // tiny NEGATIVE number
+            double mfp = Choices::step_ulps(pr.distance * xs, tie->ulps);
+            if (tie->constructive)
+            {
+                // the neighbour (if any) for which the limit mfp/xs still
+                // reaches the boundary while distance*xs exceeds mfp
+                for (int k : {-1, -2, -3})
+                {
+                    double m = Choices::step_ulps(pr.distance * xs, k);
+                    if (m > 0 && m / xs >= pr.distance
+                        && m - pr.distance * xs < 0)
+                    {
+                        mfp = m;
+                        break;
+                    }
+                }
+            }
             if (!(mfp > 0) || !std::isfinite(mfp))
                 return;
             phys.interaction_mfp(mfp);
@@ -158,6 +182,16 @@ Verdict run_case(Choices& c, CaseLog& log)
             sim.reset_step_limit(
                 calc_physics_step_limit(mat, particle, phys, pstep));
             tie->done = true;
+            --tie->remaining;
+            if (mfp - pr.distance * xs < 0 && sim.step_length() >= pr.distance)
+                tie->negative_remainder = true;
+            if (std::getenv("VERIF_TIEDEBUG"))
+                std::fprintf(stderr,
+                             "TIE slot %d pdg-neutral %d d_b %.17g xs %.17g mfp "
+                             "%.17g ulps %d limit %.17g action %d\n",
+                             int(i.get()), int(neutral), pr.distance, xs, mfp,
+                             tie->ulps, sim.step_length(),
+                             int(sim.post_step_action().get()));
             return;
         }
     };
@@ -202,12 +236,19 @@ Verdict run_case(Choices& c, CaseLog& log)
     {
         tie->enabled = true;
         tie->at_step = int(c.int_in(0, 3));
+        tie->ulps = int(c.int_in(0, 4)) - 2;
+        tie->remaining = int(c.int_in(1, 3));
+        tie->constructive = c.boolean(0.6);
+        log.mix(tie->ulps);
+        log.mix(tie->remaining * 2 + int(tie->constructive));
         tie->linear = !has_field(p.spec.along) && !has_msc(p.spec.along);
         log.mix(tie->at_step);
     }
     v = run_all_events(p, log, 20000);
     if (tie->done)
         log.label("mfp-boundary-tie-injected");
+    if (tie->negative_remainder)
+        log.label("mfp-tie-negative-remainder");
     if (v != Verdict::pass)
         return v;
     World& w = *p.w;
@@ -243,6 +284,9 @@ Verdict run_case(Choices& c, CaseLog& log)
             {
                 if (sp->action == boundary_action)
                     continue;
+                // only straight steps can tie exactly
+                if (w.pdg[sp->particle] != 22 && has_field(p.spec.along))
+                    continue;
                 geo::V3 x{{sp->post.pos[0], sp->post.pos[1], sp->post.pos[2]}};
                 geo::LD dl = geo::delta_at(fix.model, x);
                 if (geo::locate(fix.model, x, 4 * dl).ambiguous)
@@ -255,8 +299,7 @@ Verdict run_case(Choices& c, CaseLog& log)
     EventLog const* cur_event = nullptr;
     unsigned cur_track = 0;
     auto fail = [&](std::string const& msg) {
-        if (cur_event && !has_field(p.spec.along)
-            && tie_in_history(*cur_event, cur_track))
+        if (cur_event && tie_in_history(*cur_event, cur_track))
             return log.fail(msg
                                 + " [after a physics-limited step that ended "
                                   "within tolerance of a boundary]",
@@ -280,7 +323,7 @@ Verdict run_case(Choices& c, CaseLog& log)
                    << s.step_count << " (pdg " << w.pdg[s.particle]
                    << ", action " << s.action << ")";
                 if (t.steps.size() == 1 && s.step_count == 0 && s.length == 0
-                    && s.action == tracking_cut_action && s.pre.volume < 0)
+                    && s.action == tracking_cut_action)
                 {
                     // a track that could not be initialised (started outside
                     // / on a surface) is killed without taking a step; the
